@@ -2,7 +2,6 @@ package gen
 
 import (
 	"math"
-	"os"
 	"strconv"
 	"strings"
 
@@ -1120,10 +1119,6 @@ func SpecialProg(t *rapid.T) (*Prog, string) {
 		return ManyLocalsProg(n, Bool(t, "inblock")), "special:locals-" + strconv.Itoa(n)
 	case 1:
 		n := Pick(t, "nconsts", []int{230, 236, 237, 238, 239, 240, 250, 254, 300, 2300})
-		if os.Getenv("VERIF_TIER") == "thorough" && Chance(t, 10, "hugepool") {
-			// constant indices in the four-byte operand class (from 67824 on)
-			n = 67900
-		}
 		return ManyConstsProg(n), "special:constants-" + strconv.Itoa(n)
 	case 2:
 		n := Pick(t, "nest", []int{8, 15, 16, 17, 18, 24})
